@@ -1500,19 +1500,17 @@ std::ostream& expression_t::print(std::ostream& os, bool old) const
         break;
 
     case FORALL:
-        os << "forall(" << get(0).get_symbol().get_name() << ':' << get(0).get_symbol().get_type().declaration() << ") ";
-        get(1).print(os, old);
-        break;
-
     case EXISTS:
-        os << "exists(" << get(0).get_symbol().get_name() << ':' << get(0).get_symbol().get_type().declaration() << ") ";
+    case SUM: {
+        // the binder is implicitly constant; "const" is not even a keyword in query syntax, so leave it out
+        type_t binder = get(0).get_symbol().get_type();
+        if (binder.get_kind() == CONSTANT && binder.size() == 1)
+            binder = binder.get(0);
+        os << (data->kind == FORALL ? "forall(" : data->kind == EXISTS ? "exists(" : "sum(")
+           << get(0).get_symbol().get_name() << ':' << binder.declaration() << ") ";
         get(1).print(os, old);
         break;
-
-    case SUM:
-        os << "sum(" << get(0).get_symbol().get_name() << ':' << get(0).get_symbol().get_type().declaration() << ") ";
-        get(1).print(os, old);
-        break;
+    }
 
     case SMC_CONTROL:
         assert(false);
